@@ -4,12 +4,18 @@ import Driver.PinParse
 /-!
 C01 driver. One case = one history:
 
-  C01 <kind> <nrep> <ops> <events> => <obs> <obs> ...
+  C01 <kind> <nrep> <ops> <events> => G<bits> <obs> <obs> ...
 
-* kind: fsm (FSM-level harness), raft1 (one real Raft node), kill (real node killed), net (several real nodes)
-* ops: `;`-separated `P<pin>` / `U<pin>` (`-` = none) — the committed sequence
-* events: `,`-separated `<replica><code>`: a apply, b Snapshot(), p Persist(), s = b+p, i<src> install,
-  d shutdown, k kill, r restart, o offline read
+* kind: fsm (FSM-level harness), fsmraw (the same, the ops fed to the FSM as raw log entries WITHOUT passing
+  the gate of commit(): a robustness stream, not reachable through LogPin / LogUnpin), raft1 (one real Raft
+  node), kill (real node killed), net (several real nodes)
+* ops: `;`-separated `P<pin>` / `U<pin>` (`-` = none) — the SUBMITTED sequence
+* G<bits>: one character per submitted op, what the real `commit()` answered before any attempt
+  (1 = went on, 0 = refused with an error); `G-` for no op. The committed sequence is the submitted ops the
+  implementation let through; the model's `Op.decodable` must agree with every bit.
+* events: `,`-separated `<replica><code>`: a apply (of the next COMMITTED entry), b Snapshot(), p Persist(),
+  s = b+p, i<src> install, d shutdown, k kill, r restart, o offline read, x (real-Raft kinds) the next
+  submitted op was refused by LogPin / LogUnpin with an error (obs `fail~…`: nothing changed)
 * one obs per event (an `s` event has ONE obs, after the Persist): `res~applied~view~calls`,
   res ok|noop|err|crash, view D|E|<pinset>, calls `-` or `T<pin>`/`U<pin>` joined by `+`;
   a replay observation of the real-Raft harness has a fifth field: the number of entries its snapshot covered.
@@ -32,17 +38,20 @@ inductive Tok where
   | evs (l : List Ev)
   | upTo (pre : List Ev) (c : Nat)
   | burst (c : Nat)     -- FSM harness: entries applied back to back up to `c`, tracker calls in arrival order
+  | refused             -- real Raft: LogPin / LogUnpin of the next submitted op returned an error (the gate)
   | snapIfNew           -- real Raft: Snapshot() is only attempted when something was applied since the last one
 
-def parseEvent (s : String) : Option (Nat × Tok) := do
+def parseEvent (s0 : String) : Option (Nat × Tok) := do
+  -- `@<k>:<input token>` (kind net) only tells a replay which script token produced this one
+  let s := (s0.splitOn "@").headD s0
   let r ← (s.take 1).toString.toNat?
   let rest := (s.drop 1).toString
   if rest == "a" then pure (r, .evs [.apply])
   else if rest == "b" then pure (r, .evs [.snapBegin])
   else if rest == "p" then pure (r, .evs [.snapPersist])
   else if rest == "s" then pure (r, .evs [.snapBegin, .snapPersist])
-  else if rest == "d" then pure (r, .evs [.shutdown])
-  else if rest == "k" then pure (r, .evs [.kill])
+  else if rest == "d" || rest == "D" then pure (r, .evs [.shutdown])     -- D: the peer was the leader
+  else if rest == "k" || rest == "K" then pure (r, .evs [.kill])
   else if rest == "r" then pure (r, .evs [.restart])
   else if rest == "o" then pure (r, .evs [.offline])
   else if rest.startsWith "i" then do pure (r, .evs [.install (← (rest.drop 1).toString.toNat?)])
@@ -50,6 +59,7 @@ def parseEvent (s : String) : Option (Nat × Tok) := do
   else if rest.startsWith "A" then do pure (r, .upTo [] (← (rest.drop 1).toString.toNat?))
   else if rest.startsWith "B" || rest.startsWith "S" then do pure (r, .burst (← (rest.drop 1).toString.toNat?))
   else if rest == "n" then pure (r, .snapIfNew)
+  else if rest == "x" then pure (r, .refused)
   else if rest.startsWith "I" then
     match (rest.drop 1).toString.splitOn ":" with
     | [a, b] => do pure (r, .upTo [.restart, .install (← a.toNat?)] (← b.toNat?))
@@ -80,13 +90,23 @@ structure RawObs where
   view : View
   calls : List Call
   first : Option Nat := none   -- a replay: entries first..applied-1 were re-applied back to back, calls in arrival order
+  failed : Bool := false       -- the call (LogPin / LogUnpin) itself returned an error
 
 def parseObs (s : String) : Option RawObs :=
   match s.splitOn "~" with
-  | [r, a, v, c] => do pure { res := ← parseRes r, applied := ← a.toNat?, view := ← parseView v, calls := ← parseCalls c }
+  | [r, a, v, c] =>
+    if r == "fail" then do pure { res := .noop, applied := ← a.toNat?, view := ← parseView v, calls := ← parseCalls c, failed := true }
+    else do pure { res := ← parseRes r, applied := ← a.toNat?, view := ← parseView v, calls := ← parseCalls c }
   | [r, a, v, c, f] => do pure { res := ← parseRes r, applied := ← a.toNat?, view := ← parseView v, calls := ← parseCalls c,
                                  first := some (← f.toNat?) }
   | _ => none
+
+def parseGate (s : String) : Option (List Bool) :=
+  if s.startsWith "G" then
+    let r := (s.drop 1).toString
+    if r == "-" then some []
+    else r.toList.mapM (fun c => if c == '1' then some true else if c == '0' then some false else none)
+  else none
 
 def canonCall : Call → Call
   | .track p => .track (canonPin p)
@@ -163,6 +183,8 @@ def oneEvent (ops : List Op) (a : Acc) (i : Nat) (tok : Tok) (o : RawObs) (k : N
       match a.sys[i]? with
       | some r => if r.up && r.applied == r.offlineIdx then [] else [.snapBegin, .snapPersist]
       | none => []
+    -- a refused submission is no event of any replica: the peer is only read
+    | .refused => [.offline]
   let (sys', out, sh', beyond, lastEv) := evs.foldl
     (fun (st : Sys × StepOut × List Shadow × Bool × Ev) e =>
       let (s, prev, sh, b, _) := st
@@ -181,9 +203,10 @@ def oneEvent (ops : List Op) (a : Acc) (i : Nat) (tok : Tok) (o : RawObs) (k : N
     (a.sys, { res := if composite then .ok else .noop }, a.shadow, a.beyond, Ev.apply)
   let r' := (sys'[i]?).getD {}
   let (ev, ea) := observe r' lastEv
+  let isRefused := match tok with | .refused => true | _ => false
+  -- the tracker is called synchronously (2ba6875): the calls arrive in the order the model makes them
   let agree := out.res == o.res && ea == o.applied && canonView ev == canonView o.view &&
-               (if composite then (out.calls.map canonCall).isPerm (o.calls.map canonCall)
-                else out.calls.map canonCall == o.calls.map canonCall)
+               arrivalAllowed (out.calls.map canonCall) (o.calls.map canonCall) && o.failed == isRefused
   -- for the Spec a composite is one non-acknowledging observation (its tracker calls are compared with the model's above)
   let obs : Obs := if isBurst
     then { rep := i, ev := .restart, res := o.res, applied := o.applied, view := o.view, calls := o.calls,
@@ -205,7 +228,7 @@ def oneEvent (ops : List Op) (a : Acc) (i : Nat) (tok : Tok) (o : RawObs) (k : N
     | .shutdown => addFeat feats "shutdown"
     | .kill => addFeat feats "kill"
     | .restart => if out.res == .ok then addFeat feats "restart" else feats
-    | .offline => addFeat feats "offline"
+    | .offline => if isRefused then feats else addFeat feats "offline"
     | _ => feats
   let feats := match tok with
     | .burst _ => if ea > preApplied + 1 then addFeat feats "burst" else feats
@@ -215,6 +238,7 @@ def oneEvent (ops : List Op) (a : Acc) (i : Nat) (tok : Tok) (o : RawObs) (k : N
                    then addFeat feats "restart-install-nonempty" else addFeat feats "restart-install"
     | _ => feats
   let feats := if win then addFeat feats "replay-window" else feats
+  let feats := if isRefused then addFeat feats "refused-by-commit" else feats
   { sys := sys', shadow := sh', trace := obs :: a.trace, inWindow := win :: a.inWindow,
     firstDiff := match a.firstDiff with
       | some d => some d
@@ -223,7 +247,7 @@ def oneEvent (ops : List Op) (a : Acc) (i : Nat) (tok : Tok) (o : RawObs) (k : N
                 (match ev with | .down => "~D" | .error => "~E" | .pins m => "~size" ++ toString m.length) ++
                 "~calls" ++ toString out.calls.length),
     firstDiffAt := (match a.firstDiff with | some _ => a.firstDiffAt | none => k),
-    undecAt := (out.res == .err && lastEv == .apply || out.res == .crash || (obs.burst && !trackerOrderOk ops obs)) :: a.undecAt,
+    undecAt := (out.res == .err && lastEv == .apply || out.res == .crash) :: a.undecAt,
     beyond := beyond, nApply := a.nApply + (if lastEv == .apply && out.res == .ok then 1 else 0), feats := feats }
 
 def runCase (ops : List Op) (n : Nat) (evs : List (Nat × Tok)) (obs : List RawObs) : Acc :=
@@ -240,7 +264,7 @@ structure RedirStep where
 def parseRedirStep (s : String) : Option RedirStep :=
   match s.toList with
   | w :: m :: rest =>
-    if (w == 'f' || w == 'l') && (m == 'P' || m == 'U' || m == 'A' || m == 'R') then
+    if (w == 'f' || w == 'l') && (m == 'P' || m == 'U' || m == 'A' || m == 'R' || m == 'X' || m == 'Y') then
       (String.ofList rest).toNat?.map (fun n => { atLeader := w == 'l', method := m, nfail := n })
     else none
   | _ => none
@@ -257,8 +281,13 @@ def parseCallObs (s : String) : Option CallObs :=
 def redirOracle (st : RedirStep) : List Commit.Outcome :=
   if st.atLeader then [.selfApplyOk] else List.replicate st.nfail .fwdErr ++ [.fwdOk]
 
+/-- X = LogPin of a pin with origins, Y = LogUnpin carrying such a pin: operations the gate refuses -/
+def RedirStep.decodable (st : RedirStep) : Bool := !(st.method == 'X' || st.method == 'Y')
+
 def redirExpected (retries : Nat) (st : RedirStep) : CallObs :=
-  let r := Commit.commit Commit.expectedRedir Commit.expectedOuter retries (redirOracle st)
+  let r := if st.method == 'A' || st.method == 'R'
+    then Commit.commit Commit.expectedRedir Commit.expectedOuter retries (redirOracle st)
+    else Commit.commitOp Commit.expectedGate Commit.expectedRedir Commit.expectedOuter retries st.decodable (redirOracle st)
   { ok := !r.err,
     forwarded := (r.consumed.filter (fun x => x == .fwdOk || x == .fwdErr)).length,
     effect := if r.consumed.any (·.success) then .all else .none }
@@ -272,7 +301,7 @@ def answerRedir (pre post : List String) : String :=
       let failed := (callClauses obs).filter (fun c => !c.2)
       let arms := (steps.zip obs).map (fun so =>
         "arm=redir+" ++ (if so.1.atLeader then "leader" else "follower") ++ "-" ++ String.singleton so.1.method ++
-          (if so.1.atLeader then "" else if so.1.nfail == 0 then "-direct" else if so.1.nfail ≤ retries then "-retried" else "-exhausted") ++
+          (if !so.1.decodable then "-undecodable" else if so.1.atLeader then "" else if so.1.nfail == 0 then "-direct" else if so.1.nfail ≤ retries then "-retried" else "-exhausted") ++
           (if so.2.ok then "-ok" else "-err"))
       let arm := "arm=redir " ++ " ".intercalate arms.eraseDups
       let diffs := ((steps.zip obs).zipIdx).filter (fun soi => redirExpected retries soi.1.1 != soi.1.2)
@@ -292,24 +321,46 @@ def answer (ws : List String) : String :=
   match splitArrow ws with
   | none => "bad-case no-arrow"
   | some ("redir" :: pre, post) => answerRedir pre post
-  | some (pre, post) =>
+  | some (pre, []) => "bad-case no-gate-token " ++ toString pre.length
+  | some (pre, g :: post) =>
     match pre with
     | [kind, n, opsT, evT] =>
-      match n.toNat?, parseOps opsT, parseEvents evT, post.mapM parseObs with
-      | some n, some ops, some evs, some obs =>
+      match n.toNat?, parseOps opsT, parseEvents evT, post.mapM parseObs, parseGate g with
+      | some n, some submitted, some evs, some obs, some gate =>
+        if gate.length != submitted.length then "bad-case gate-bits " ++ toString gate.length ++ "/" ++ toString submitted.length else
         if evs.length != obs.length then "bad-case obs-count " ++ toString evs.length ++ "/" ++ toString obs.length else
         if evs.any (fun e => e.1 ≥ n) then "bad-case replica-index" else
+        let raw := kind == "fsmraw"
+        let fsmLevel := raw || kind == "fsm"
+        let nRefusedToks := (evs.filter (fun e => match e.2 with | .refused => true | _ => false)).length
+        if !fsmLevel && nRefusedToks != (gate.filter (fun b => !b)).length then "bad-case refused-count" else
+        if fsmLevel && nRefusedToks != 0 then "bad-case refused-token-in-fsm-case" else
+        -- the committed sequence: what the IMPLEMENTATION's commit() let through (fsmraw: the entries as fed)
+        let ops := if raw then submitted else ((submitted.zip gate).filter (·.2)).map (·.1)
+        -- the model's gate must agree with the real one on every submitted op
+        let gateDiff := ((submitted.zip gate).zipIdx).find? (fun x => x.1.1.decodable != x.1.2)
         let a := runCase ops n evs obs
-        let trace := a.trace.reverse
-        let wins := a.inWindow.reverse
-        let undec := a.undecAt.reverse
         let origins := ops.any (fun o => !o.thePin.opts.origins.isEmpty)
         let undef := ops.any (fun o => o.thePin.cid == undefCid || o.thePin.ref == some undefCid)
-        let arm := "arm=" ++ kind ++ " " ++ " ".intercalate (a.feats.map (fun f => "arm=" ++ kind ++ "+" ++ f))
+        let feats := a.feats
+        let feats := if !raw && gate.any (fun b => !b) then addFeat feats "gate-refused" else feats
+        let feats := if raw then addFeat feats "not-reachable-through-commit" else feats
+        let evToks := evT.splitOn ","
+        let feats := if evToks.any (fun t => ((t.splitOn "@").headD t).endsWith "D") then addFeat feats "leader-shutdown" else feats
+        let feats := if evToks.any (fun t => ((t.splitOn "@").headD t).endsWith "K") then addFeat feats "leader-stopped-no-snapshot" else feats
+        let feats := if evToks.any (fun t => t.endsWith ":3C" && (((t.splitOn "@").headD t).drop 1).startsWith "R") then addFeat feats "old-leader-back-replay" else feats
+        let feats := if evToks.any (fun t => t.endsWith ":3C" && (((t.splitOn "@").headD t).drop 1).startsWith "I") then addFeat feats "old-leader-back-install" else feats
+        let arm := "arm=" ++ kind ++ " " ++ " ".intercalate (feats.map (fun f => "arm=" ++ kind ++ "+" ++ f))
         if a.beyond then "bad-case beyond-model (op applied on a poisoned FSM)" else
-        -- The part of the history before the first observation touched by a recorded defect (an
-        -- undecodable entry applied, a peer inside a snapshot replay window) is an ordinary history:
-        -- it is judged first, on its own.
+        -- fsmraw: from the first entry the FSM cannot decode on, the history is not one `commit` can produce:
+        -- the property is judged on the part before it, the rest is only compared with the model
+        let cutU := if raw then (a.undecAt.reverse.takeWhile (fun b => !b)).length else a.trace.length
+        let trace := a.trace.reverse.take cutU
+        let wins := a.inWindow.reverse.take cutU
+        let undec := a.undecAt.reverse.take cutU
+        -- The part of the history before the first observation touched by a recorded defect (a peer inside
+        -- a snapshot replay window; an entry the FSM refused, which only a broken gate lets through) is an
+        -- ordinary history: it is judged first, on its own.
         let touched := (undec.zip wins).map (fun uw => uw.1 || uw.2)
         let cut := (touched.takeWhile (fun b => !b)).length
         let report := fun (tr : List Obs) (ws : List Bool) (orig : Bool) (failed : List (String × Bool)) =>
@@ -319,22 +370,22 @@ def answer (ws : List String) : String :=
           "propfail " ++ ",".intercalate (failed.map (·.1)) ++ " " ++ arm ++
             " window=" ++ (if window then "1" else "0") ++ " origins=" ++ (if orig then "1" else "0") ++
             (if undef then " undef=1" else "") ++
-            " order=" ++ (if tr.all (trackerOrderOk ops) || failed.any (fun c => c.1 != "tracker_order") then "1" else "0") ++
+            " order=" ++ (if tr.all (trackerOrderOk ops) then "1" else "0") ++
             -- does the implementation behave exactly as the model (which includes the recorded defects) predicts?
             " agree=" ++ (if a.firstDiff.isNone then "1" else "0")
-        -- the order of arrival at the tracker is independent of what the peers serve: when other clauses
-        -- fail too they are reported (the order failure shows up alone in other cases)
-        let dropOrder := fun (l : List (String × Bool)) =>
-          if l.any (fun c => c.1 != "tracker_order") then l.filter (fun c => c.1 != "tracker_order") else l
-        let failedPre := dropOrder ((clauses ops (trace.take cut)).filter (fun c => !c.2))
-        let failed := dropOrder ((clauses ops trace).filter (fun c => !c.2))
+        let failedPre := (clauses ops (trace.take cut)).filter (fun c => !c.2)
+        let failed := (clauses ops trace).filter (fun c => !c.2)
         if !failedPre.isEmpty then report (trace.take cut) (wins.take cut) false failedPre
         else if a.firstDiff.isSome && a.firstDiffAt < cut then "diff " ++ arm ++ " " ++ a.firstDiff.getD ""
         else if !failed.isEmpty then report trace wins origins failed
-        else match a.firstDiff with
-          | some d => "diff " ++ arm ++ " " ++ d
-          | none => "ok " ++ arm ++ (if a.nApply == 0 then " trivial" else "")
-      | _, _, _, _ => "bad-case parse"
+        else match gateDiff with
+          | some d => "diff " ++ arm ++ " gate:op" ++ toString d.2 ++ ":model=" ++
+                        (if d.1.1.decodable then "decodable" else "undecodable") ++ ",commit=" ++ (if d.1.2 then "went-on" else "refused")
+          | none =>
+            match a.firstDiff with
+            | some d => "diff " ++ arm ++ " " ++ d
+            | none => "ok " ++ arm ++ (if a.nApply == 0 then " trivial" else "")
+      | _, _, _, _, _ => "bad-case parse"
     | _ => "bad-case shape"
 
 end CV.C01
